@@ -392,8 +392,8 @@ Section Dec.
 
   Definition dec_bits (fl: dec_flags) (sp: option ty) (ts: tagset) (len: N) (sfun: bool) : proc dval :=
     if sfun then collector (Some len) else
-    if N.eqb len 0 then Raise EMalformed else
     if tag0_simple ts then
+      if N.eqb len 0 then Raise EMalformed else        (* 'Empty BIT STRING substrate': the initial octet is missing *)
       let! tb := read1 in
       if N.ltb 7 tb then Raise EMalformed else
       let! b := read_len (len - 1) in let! bs := lift (bits_of_octets b tb) in create sp TBits ts (VBits bs)
@@ -623,7 +623,7 @@ Section Dec.
            | S n' =>
                let! d := (if tagged then rec (SMap m) [] None true false else rec (SMap m) ts (Some None) false false) in
                match d with
-               | DEoo => match cur with Some x => Ret x | None => Ret (DV T (VChoice (length alts) VNull)) end
+               | DEoo => match cur with Some x => Ret x | None => Raise EMalformed end      (* 'No alternative of CHOICE' *)
                | _ => let! x := place d in if tagged then choice_loop T alts ts tagged n' (Some x) else Ret x
                end
            end.
